@@ -4,7 +4,7 @@ single instance fed the live batches (oracle), and vs the Lean class model (`pro
 from __future__ import annotations
 import time
 from ..common import Rng, Report, budget, ckey
-from ..registry import SPECS, Spec, fresh_cfg, public_cfg, new_metric
+from ..registry import SPECS, Spec, fresh_cfg, public_cfg, new_metric, finding_class
 from ..engine import observe, same_obs, obs_json, fed
 from ..progs import Prog, run_real, model_results, compare_with_model
 
@@ -132,7 +132,7 @@ def verdict(rep, p: Prog, root, shape, res):
     real_out = res[-1]
     bad = oracle_check(rep, p, root, shape, real_out)
     if bad:
-        return (f"C01|{spec.name}|merged-differs-from-single",
+        return (f"C01|{spec.name}{finding_class(spec, p.cfg)}|merged-differs-from-single",
                 f"{spec.name}{public_cfg(p.cfg)}: merge tree ({shape}) gives {obs_json(real_out)} but {bad['expected_by']} gives {bad['expected']}",
                 {"program": p.describe(), "root": root, "shape": shape, "merged": obs_json(real_out), **bad})
     return None
